@@ -1399,7 +1399,7 @@ def annotate_next(text):
                    "                if %s { lemma_iter_at_bound(t, self.index as int, self.merkle_stack@, self.done_left_stack@); }\n"
                    "            }\n"
                    "        }") % AT))
-    mo = _need(re.search(r"while\s+self\.index\s*<\s*self\.spend_info\.nodes\.len\(\)\s*\{", text), "`while self.index < self.spend_info.nodes.len() {`")
+    mo = _need(re.search(r"while\s+self\.index\s*<=?\s*self\.spend_info\.nodes\.len\(\)\s*\{", text), "`while self.index < self.spend_info.nodes.len() {`")
     oo, co = _block_after(text, mo)
     edits.append((oo, ("\n            invariant\n"
                        "                self.spend_info == old(self).spend_info, info_wf(*self.spend_info), t == info_tree(*self.spend_info), tt_pos0 == iter_pos(*old(self)),\n"
